@@ -901,3 +901,68 @@ def run(idx, rep, tier):
               f'{_badc}: window 8192, 491520 bytes written, then close() '
               'against a peer that echoes: after 10 s 401408 bytes are '
               'still unsent and wait_closed() hangs', _fa.loc(_fa.node))
+    rep.rule('C08.R16', 'SSHTunTapChannel._accept_data (point-to-point mode '
+             'strips a 4-byte address family and charges it to the window '
+             'itself): the charge and the strip happen only while the base '
+             'class will keep the data - they are guarded by the same '
+             'send-state test as the base class discard (close_pending / '
+             'closed) - otherwise every packet discarded during a pending '
+             'close costs both ends 4 bytes of window that nothing gives '
+             'back')
+    _ft = k.func('channel.SSHTunTapChannel._accept_data')
+    _gt = k.cfg(_ft)
+    _chg = [n for n, v in k.stores_to(_ft, 'self._recv_window')]
+    rep.floor('C08.R16', 'header charges', len(_chg), 1)
+
+    def _open_state(x):
+        a = x.ast
+        if x.kind == 'atom' and isinstance(a, ast.Compare) and \
+                len(a.ops) == 1 and dotted(a.left) == 'self._send_state':
+            if isinstance(a.ops[0], ast.NotIn):
+                return True
+            if isinstance(a.ops[0], ast.In):
+                return False
+        return None
+    for _n in _chg:
+        _w = _gt.guarded_by(_n.id, _open_state)
+        rep.check(_w is None, 'C08.R16',
+                  key(_ft, 'header charged only for data that is kept'),
+                  'guarded by self._send_state not in (close_pending, closed)',
+                  'window 64, TUN mode, close() with data pending, then '
+                  '16-byte packets: each is answered with an adjust of 12 '
+                  'and charged 4 - after 13 packets the peer has 12 of 64 '
+                  'bytes left and stalls', k.loc(_ft, _n),
+                  _gt.describe_path(_w) if _w else None)
+    rep.rule('C08.R17', 'SSHChannel._deliver_data: the replenishment test '
+             '(window below half of the initial window) is evaluated for '
+             'every chunk taken from the peer, also one that decodes to '
+             'nothing yet (half of a multi-byte character) - every path '
+             'through the function passes it; a window smaller than one '
+             'encoded character would otherwise never re-open')
+    _fdl = k.func('channel.SSHChannel._deliver_data')
+    _gdl = k.cfg(_fdl)
+    def _is_trg(e):
+        return isinstance(e, ast.Compare) and \
+            'self._recv_window' in names_read(e) and \
+            'self._init_recv_window' in names_read(e)
+    _trg = [a.id for a in _gdl.nodes if a.kind == 'atom' and _is_trg(a.ast)]
+    # ... or a call of a method of the class that holds the test
+    _cls8 = k.idx.cls('channel.SSHChannel')
+    _helpers = {m.name for m in _cls8.methods.values()
+                if m.name != '_deliver_data' and
+                any(_is_trg(x) for x in ast.walk(m.node))}
+    _trg += [n.id for n, c in k.call_nodes(_fdl, lambda c: isinstance(
+        c.func, ast.Attribute) and dotted(c.func.value) == 'self' and
+        c.func.attr in _helpers)]
+    _w = _gdl.path(_gdl.entry, _gdl.exit, blocked_nodes=_trg,
+                   follow_exc=False)
+    rep.check(bool(_trg) and _w is None, 'C08.R17',
+              key(_fdl, 'window considered for every chunk'),
+              'no return before the replenishment test',
+              'utf-8 text channel with window 1..3: the bytes of an '
+              'incomplete character are charged but no WINDOW_ADJUST '
+              'follows, the peer never gets window for the completing '
+              'byte and the transfer stalls with the reader waiting',
+              _fdl.loc(_fdl.node), _gdl.describe_path(_w) if _w else None)
+    from .c07 import r7 as _c07r7
+    share(k, 'C08.R18', 'read() looks at its buffer again after resuming a paused channel (= C07.R7): data handed over synchronously inside resume_reading() may refill the stream to its limit and pause the channel again - a read() that then blocks waits for a wake-up that cannot come while the window stays shut', _c07r7)
